@@ -82,7 +82,7 @@ for pid in IDS:
         patch = os.path.join(mdir, 'patch.diff')
         if not os.path.isfile(patch):
             continue
-        name = f'{pid}-m{k}'
+        name = f'{pid}-{os.environ.get("SEED_TAG", "m")}{k}'
         plans = demo_plan(mdir)
         scripts = sorted(glob.glob(os.path.join(mdir, '*.sh')))
         meta = {'id': name, 'property': pid, 'source': 'independent sub-agent given only the property text and a scratch worktree', 'ran': []}
